@@ -247,6 +247,10 @@ func cmdFaults(args []string) error {
 	hist := map[string]int{}
 	calls := map[string]int{}
 	for _, text := range corpus {
+		if hist["fault-hang"]+hist["baseline-hang"] >= 4 {
+			// every hang costs a watchdog period and leaves goroutines behind; a few are enough to report
+			break
+		}
 		// fault-free run on a fresh copy of the populated store: which driver calls does the statement make?
 		ctl := &faultCtl{failAt: -1}
 		res, _ := runWithCfg(&faultStore{populated(), ctl}, text, runCfg{chanSize: 1, bulkSize: 2})
